@@ -322,7 +322,7 @@ pub fn worker(a: &[String]) -> i32 {
 pub fn run_leg(prop: &str, idx: usize, thorough: bool, deadline: std::time::Instant, logger_mode: bool) -> LegResult {
     let total: u32 = if logger_mode {
         if thorough { 8_000_000 } else { 480_000 }
-    } else if thorough { 2_000_000 } else { 160_000 };
+    } else if thorough { 1_200_000 } else { 160_000 };
     let nw = if thorough { 16u32 } else { 8u32 };
     let outdir = Path::new(VERIF).join(format!("build/work/{}-{}", prop, idx));
     let _ = fs::remove_dir_all(&outdir);
